@@ -145,6 +145,8 @@ def _build(arr, via="flat"):
         return RaggedArray([dec_seq(r, dt).tolist() for r in rows])
     if via == "flat":
         return RaggedArray(data, lens, dtype=npdt)
+    if via == "unsafe":                        # safe_mode=False: the library skips its index checks, so only cases with an answer are claimed
+        return RaggedArray(data, lens, dtype=npdt, safe_mode=False)
     if via == "shape":
         return RaggedArray(data, RaggedShape(lens))
     if via == "rowview":                       # big = [S] + rows + [S, S];  big[1:-2]
@@ -181,7 +183,7 @@ def _build(arr, via="flat"):
     raise ValueError(via)
 
 
-VIAS = ["rows", "flat", "shape", "rowview", "colview", "stepview", "revview", "listview", "ufunc", "assigned", "nprows", "pylists"]
+VIAS = ["rows", "flat", "shape", "rowview", "colview", "stepview", "revview", "listview", "ufunc", "assigned", "nprows", "pylists", "unsafe"]
 
 
 def pre_reads(a, pre):
